@@ -4064,7 +4064,14 @@ func (r *Resolver) resolveWithCachedNameservers(ctx context.Context, rs *resolve
 		return nil, errMaxDepth
 	}
 
-	rs.level++
+	// The cached servers speak for q.Name, so level is that zone's label
+	// count — what the uncached path of processDelegation assigns
+	// (rs.level = nlevel). Incrementing instead undercounts a referral that
+	// descends more than one label (uk. -> example.co.uk.) whenever the full
+	// name is on the wire, and checkGlueRR derives the glue bailiwick from
+	// level: the child's servers would get glue accepted for any name under
+	// the skipped label (co.uk.).
+	rs.level = dns.CountLabel(q.Name)
 	rs.servers = cached.Servers
 	rs.parentDS = cached.DSSet
 	rs.isRoot = false
